@@ -311,6 +311,18 @@ func (v *Verifier) applyContract(st *State, in *ssa.Call, c *Contract, fn *ssa.F
 	oldLW := st.lw()
 	if !c.Pure {
 		for _, m := range append(append([]string{}, c.Modifies...), c.Allocs...) {
+			if i := indexOf(names, m); i >= 0 {
+				// a pointer parameter: only that cell changes
+				if pt, ok := tys[i].Underlying().(*types.Pointer); ok {
+					cell := sortOf(pt.Elem())
+					f := Fresh(m+"_cell", cell)
+					for _, t := range typeInv(f, pt.Elem(), 0) {
+						st.assume(t)
+					}
+					st.setHeap(cell, Store(st.getHeap(cell), args[i], f))
+					continue
+				}
+			}
 			cell := v.cellSortByName(c.Pkg.Types, m)
 			old := st.getHeap(cell)
 			isAllocOnly := false
@@ -374,4 +386,13 @@ func contractParams(c *Contract, fn *ssa.Function, sig *types.Signature) ([]stri
 		tys = append(tys, sig.Params().At(i).Type())
 	}
 	return names, tys
+}
+
+func indexOf(xs []string, x string) int {
+	for i, y := range xs {
+		if y == x {
+			return i
+		}
+	}
+	return -1
 }
